@@ -57,8 +57,12 @@ def install(it):
     def _issubclass(it, a, kw):
         return it.is_subclass(a[0], a[1])
 
+    # hasattr / getattr-with-default ASK whether an attribute is there: while
+    # they probe, a missing attribute is a plain AttributeError again (not a
+    # model gap), also on the models and ducks of contract scripts
     @builtin('hasattr')
     def _hasattr(it, a, kw):
+        it.probing = getattr(it, 'probing', 0) + 1
         try:
             it.getattr(a[0], a[1])
             return True
@@ -66,16 +70,21 @@ def install(it):
             if any(c.host is AttributeError for c in e.exc.cls.mro):
                 return False
             raise
+        finally:
+            it.probing -= 1
 
     @builtin('getattr')
     def _getattr(it, a, kw):
         if len(a) == 3:
+            it.probing = getattr(it, 'probing', 0) + 1
             try:
                 return it.getattr(a[0], a[1])
             except PyRaise as e:
                 if any(c.host is AttributeError for c in e.exc.cls.mro):
                     return a[2]
                 raise
+            finally:
+                it.probing -= 1
         return it.getattr(a[0], a[1])
 
     @builtin('setattr')
@@ -582,6 +591,37 @@ def type_of(it, v):
 # attribute access on non-Obj values
 
 
+def int_from_bytes(it, a, kw):
+    """int.from_bytes(buf, byteorder='big', *, signed=False)"""
+    buf = a[0]
+    order = a[1] if len(a) > 1 else kw.get('byteorder', 'big')
+    signed = kw.get('signed', False)
+    if isinstance(buf, (bytes, bytearray)) and not is_symbolic(order):
+        return it.host_call(int.from_bytes, bytes(buf), order, signed=signed)
+    if not isinstance(buf, SBytes) or order not in ('little', 'big') or \
+            is_symbolic(signed):
+        raise Unsupported('int.from_bytes(%r, %r)' % (buf, order))
+    n = buf.length
+    if not isinstance(n, int):
+        # a window whose length the path condition pins to a constant
+        for k in range(0, 17):
+            if it.path.implied(buf.zlen() == k):
+                n = k
+                break
+        else:
+            raise Unsupported('int.from_bytes of a buffer of symbolic length')
+    if n == 0:
+        return 0
+    terms = []
+    for i in range(n):
+        w = i if order == 'little' else n - 1 - i
+        terms.append(buf.at(i) * (1 << (8 * w)))
+    v = z3.Sum(terms) if len(terms) > 1 else terms[0]
+    if signed:
+        v = z3.If(v >= (1 << (8 * n - 1)), v - (1 << (8 * n)), v)
+    return mk_int(v)
+
+
 def getattr_value(it, o, name):
     I = _interp_types()
     if isinstance(o, (SBytes, bytes, bytearray, str, SStr, OpaqueStr, list,
@@ -600,6 +640,8 @@ def getattr_value(it, o, name):
     if isinstance(o, I.BuiltinType):
         if name == '__name__':
             return o.name
+        if o.host is int and name == 'from_bytes':
+            return I.Builtin('int.from_bytes', int_from_bytes)
         if hasattr(o.host, name):
             return I.Builtin('%s.%s' % (o.name, name),
                              lambda it_, a, kw, _n=name:
@@ -777,6 +819,15 @@ def call_host_method(it, hm, args, kw):
                 if x is ops._MISSING:
                     return args[1] if len(args) > 1 else kw.get('default')
                 return recv[x]
+            if name == 'setdefault' and args and (is_symbolic(args[0]) or any(
+                    is_symbolic(x) for x in recv)):
+                x = ops.dict_find(it, recv, args[0])
+                if x is ops._MISSING:
+                    it.heap_writes += 1
+                    v = args[1] if len(args) > 1 else None
+                    recv[args[0]] = v
+                    return v
+                return recv[x]
             if name in ('get', 'pop', 'setdefault') and args and (
                     is_symbolic(args[0]) or any(is_symbolic(x)
                                                 for x in recv)):
@@ -869,7 +920,8 @@ def bytes_method(it, recv, name, args, kw):
         return mk_bool(z3.And([n >= k] + [b.at(n - k + i) == sfx[i]
                                           for i in range(k)]))
     if name in ('decode', 'index', 'find', 'hex', 'split', 'strip',
-                'rstrip', 'lstrip', 'count', 'replace', 'lower', 'upper'):
+                'rstrip', 'lstrip', 'count', 'replace', 'lower', 'upper',
+                'partition'):
         from . import strings
         return strings.bytes_method(it, recv, name, args, kw)
     raise Unsupported('bytes.%s on symbolic bytes' % name)
